@@ -4,10 +4,6 @@ func genPointIndex(repo string) (string, error) {
 	return "(* GENERATED placeholder *)\n", nil
 }
 
-func genTmsData(repo string) (string, error) {
-	return "(* GENERATED placeholder *)\n", nil
-}
-
 func genCli(repo string) (string, error) {
 	return "(* GENERATED placeholder *)\n", nil
 }
